@@ -7,8 +7,14 @@
 // unit tests, where a response arrives before request() returns), which also puts responses inside completion
 // callbacks when those issue further requests.
 //
+// The peer is also a CLIENT of the endpoint under test: it sends requests / notifications to three services
+// registered with addService() ("svc_sync" answers from inside the callback, "svc_defer" returns false and the
+// harness answers later through Rpc::respond() — or never) and to a method that is not registered.  The peer
+// numbers its requests independently of the Rpc, preferably with exactly the ids the Rpc uses for its own requests.
+//
 // ops:  cfg proto timeout_s | request sync sarg pay | then kind sync sarg | notify pay | deliver k how pay |
-//       unknown sel how | advance ms          (see NOTES.md for the argument tables)
+//       unknown sel how | advance ms | peerreq idsel kind pay delay_ms | peernotify kind pay
+//       (see NOTES.md for the argument tables)
 //
 // Oracle (all on observed behaviour, no model of the timer ring):
 //   * a completion callback never runs twice;
@@ -19,7 +25,18 @@
 //   * a callback that runs outside any delivery must be the timeout error (-32000, null), no earlier than
 //     (timeout-1) s after the request was issued and no later than the first loop pass at or after timeout s (the
 //     documented granularity is one 1-second tick; the clock advances in steps <= 1 s, each followed by idle passes);
-//   * after the final drain (clock far beyond every deadline) every request has completed exactly once.
+//   * after the final drain (clock far beyond every deadline) every request has completed exactly once;
+//   * all of the above holds whatever the peer sends as requests of its own (no completion callback runs while a
+//     peer request is being delivered; serving a peer request never completes, delays or shortens an own request);
+//   * serving side, only what rpc.h / rpc.cpp / rpc_test.cpp document: a registered service is invoked exactly once
+//     per peer request with the peer's id (0 for a notification) and params; a peer request with an id gets at most
+//     one response; unregistered method -> exactly one error -32601, at once; service returned true -> exactly one
+//     response at once (errcode 0: the result, else the error code); service returned false -> nothing until
+//     respond() is called, and a respond() issued before the respond timeout can have passed ((timeout-1) s) puts
+//     exactly that answer on the wire; a notification to a registered service gets no response.  Left free: whether
+//     respond() after the respond timeout still sends (it does), the answer to a notification for an unregistered
+//     method (the code sends error -32601 with id 0), anything about a deferred request that is never answered
+//     except "at most one response and not a result".
 #define VERIF_MAIN
 #include "common.h"
 #include "../common/vloop.h"
@@ -31,10 +48,12 @@ using namespace c14;
 
 namespace {
 
-enum { CFG, REQUEST, THEN, NOTIFY, DELIVER, UNKNOWN, ADVANCE, NOPS };
-enum { SY_NONE, SY_RESULT, SY_ERROR, SY_TWICE, SY_OTHER, SY_UNKNOWN, SY_PARENT, NSYNC };
+enum { CFG, REQUEST, THEN, NOTIFY, DELIVER, UNKNOWN, ADVANCE, PEERREQ, PEERNOTIFY, NOPS };
+enum { SY_NONE, SY_RESULT, SY_ERROR, SY_TWICE, SY_OTHER, SY_UNKNOWN, SY_PARENT, SY_PEERREQ, NSYNC };
+enum { K_NOSUCH, K_SYNC_OK, K_SYNC_ERR, K_DEFER_OK, K_DEFER_ERR, K_DEFER_NEVER, NKIND };
 const int kTimeoutErr = -32000;
-const int kMaxReqs = 48, kMaxChain = 6;
+const int kMaxReqs = 48, kMaxChain = 6, kMaxIncoming = 24;
+const int kMethodNotFound = -32601;
 
 struct Done { uint64_t t; int errcode; Json result; int ctx; };
 struct ThenSpec { int kind, sync, sarg; };
@@ -46,7 +65,17 @@ struct Req {
   bool in_timeout_cb = false;                 // issued from inside a timeout completion
 };
 struct Item { int64_t wire_id; int target; bool is_error; int errcode; Json payload; bool pending_at_start = false; };
-struct Delivery { std::vector<Item> items; };
+struct Delivery { std::vector<Item> items; int incoming = -1; };   // incoming >= 0: a peer REQUEST is being delivered (no items)
+// a request / notification the peer sends to the endpoint under test
+struct Resp { bool is_error; int code; Json result; uint64_t t; };
+struct Incoming {
+  bool has_id = true; int id = 0; int kind = K_NOSUCH, pay = 0; uint64_t t_in = 0, delay = 0;
+  std::string method; Json params;
+  int invoked = 0;                 // service invocations
+  int errcode = 0; Json result;    // what the service / the later respond() call answers
+  bool answered = false, in_time = false; uint64_t t_answer = 0;
+  std::vector<Resp> resps;         // response frames the Rpc put on the wire for this id
+};
 
 Json paramsFor(int pay, int idx) {
   switch (pay) {
@@ -72,12 +101,17 @@ struct World {
   std::vector<int> ctx_stack;                  // deliveries in progress (innermost last)
   std::vector<int> issuing;                    // request being issued (innermost last); -1 = a notification
   std::vector<Json> issuing_params; std::vector<std::string> issuing_method;
+  std::deque<Incoming> incs;
+  std::vector<int> inc_stack;                  // peer requests being delivered (innermost last)
+  int answering = -1;                          // incoming request the harness is calling respond() for
   std::string err;
   uint64_t prev_now = 0;                      // clock before the most recent step
   int serial = 0, max_wire_id = 0, notifies = 0, notify_frames = 0;
   // shape statistics
   bool st_late = false, st_dup = false, st_unknown = false, st_pending_resp = false, st_sync = false, st_timeout = false, st_nested = false,
-       st_nested_in_timeout = false, st_reentrant_dup = false, st_batch = false, st_err_resp = false, st_future_id = false, st_other_in_cb = false, st_wide_id = false;
+       st_nested_in_timeout = false, st_reentrant_dup = false, st_batch = false, st_err_resp = false, st_future_id = false, st_other_in_cb = false, st_wide_id = false,
+       st_inc_nosuch = false, st_inc_sync = false, st_inc_defer_answered = false, st_inc_defer_late = false, st_inc_never = false, st_inc_notify = false,
+       st_inc_collide = false, st_inc_in_send = false, st_notif_nosuch_answered = false;
 
   World() : clk(1000000) {}
 
@@ -102,7 +136,9 @@ struct World {
     if (ctx >= 0) {
       const Item *it = nullptr;
       for (auto &x : delivs[ctx].items) if (x.target == k) { it = &x; break; }
-      if (!it) {
+      if (!it && delivs[ctx].incoming >= 0) {
+        fail(nameOf(k) + " completed with " + showDone(ec, r) + " while the peer's own request (id " + std::to_string(incs[delivs[ctx].incoming].id) + ", method " + incs[delivs[ctx].incoming].method + ") was being delivered");
+      } else if (!it) {
         std::string ids; for (auto &x : delivs[ctx].items) ids += (ids.empty() ? "" : ",") + std::to_string(x.wire_id);
         fail(nameOf(k) + " completed with " + showDone(ec, r) + " while a response for id " + ids + " (not its id) was being delivered");
       } else if (it->is_error ? !(ec == it->errcode && r.is_null()) : !(ec == 0 && r == it->payload)) {
@@ -164,6 +200,7 @@ struct World {
     std::string chunk((const char *)p, n), text; Json js;
     std::string derr = decodeChunk(proto_kind, chunk, js, text);
     if (!derr.empty()) { fail("frame sent by Rpc: " + derr); return; }
+    if (js.is_object() && !js.contains("method")) { onSendResponse(js, text); return; }   // the Rpc answers a peer request
     if (issuing.empty()) { fail("Rpc sent a frame although no request()/notify() call was in progress: " + clip(text)); return; }
     int k = issuing.back();
     Json want = {{"jsonrpc", "2.0"}, {"method", issuing_method.back()}};
@@ -190,9 +227,136 @@ struct World {
       case SY_OTHER: { int o = pickOther(q.sarg, k); if (o >= 0) { st_sync = true; if (!ctx_stack.empty() || q.parent >= 0) st_other_in_cb = true; deliverFor(o, q.sarg % 2, false); } break; }
       case SY_UNKNOWN: st_sync = true; deliverUnknown(q.sarg % 8, 0); break;
       case SY_PARENT: if (q.parent >= 0) { st_sync = true; st_reentrant_dup = true; deliverFor(q.parent, 0, false); } break;
+      case SY_PEERREQ: {   // the peer reacts with a request of its own that carries the very same id
+        static const int kinds[] = {K_DEFER_NEVER, K_NOSUCH, K_SYNC_OK, K_DEFER_OK};
+        st_inc_in_send = true; peerRequest(true, id, kinds[q.sarg % 4], q.sarg % 6, (uint64_t)(q.sarg % 4) * 700); break; }
       default: break;
     }
   }
+
+  // ------------------------------------------------------------------------------------- the peer as a client
+  // response frames written by the Rpc
+  void onSendResponse(const Json &js, const std::string &text) {
+    bool has_result = js.contains("result"), has_error = js.contains("error");
+    if (!js.contains("jsonrpc") || js["jsonrpc"] != "2.0" || !js.contains("id") || !js["id"].is_number_integer() || has_result == has_error ||
+        (has_error && !(js["error"].is_object() && js["error"].contains("code") && js["error"]["code"].is_number_integer()))) {
+      fail("Rpc wrote a frame that is neither a request nor a well-formed response: " + clip(text)); return;
+    }
+    int64_t id = js["id"].get<int64_t>();
+    Resp rs{has_error, has_error ? js["error"]["code"].get<int>() : 0, has_result ? js["result"] : Json(), clk.now};
+    std::string what = (rs.is_error ? "error " + std::to_string(rs.code) : "result " + dumpJ(rs.result)) + " for id " + std::to_string(id);
+    int cur = inc_stack.empty() ? -1 : inc_stack.back();
+    if (id == 0) {
+      // not fixed by the documentation: a notification for an unregistered method is answered with error -32601, id 0
+      if (cur >= 0 && !incs[cur].has_id && incs[cur].kind == K_NOSUCH && rs.is_error) { st_notif_nosuch_answered = true; return; }
+      fail("Rpc sent a response with id 0 (" + what + ")"); return;
+    }
+    int k = -1;
+    for (size_t i = 0; i < incs.size(); ++i) if (incs[i].has_id && incs[i].id == id) k = (int)i;
+    if (k < 0) { fail("Rpc sent " + what + " although the peer never sent a request with that id"); return; }
+    Incoming &in = incs[k];
+    std::string who = "peer request id " + std::to_string(in.id) + " (" + in.method + ")";
+    in.resps.push_back(rs);
+    if (in.resps.size() > 1) { fail(who + " got a second response: " + what); return; }
+    switch (in.kind) {
+      case K_NOSUCH:
+        if (cur != k) fail(who + ": response " + what + " was not sent while the request was being handled");
+        else if (!rs.is_error || rs.code != kMethodNotFound) fail(who + ": method is not registered, expected error -32601, got " + what);
+        break;
+      case K_SYNC_OK: case K_SYNC_ERR:
+        if (cur != k) fail(who + ": service answered synchronously, but " + what + " was not sent while the request was being handled");
+        else if (in.kind == K_SYNC_OK ? (rs.is_error || rs.result != in.result) : (!rs.is_error || rs.code != in.errcode))
+          fail(who + ": service answered " + (in.kind == K_SYNC_OK ? "result " + dumpJ(in.result) : "errcode " + std::to_string(in.errcode)) + ", the Rpc sent " + what);
+        break;
+      case K_DEFER_OK: case K_DEFER_ERR:
+        if (answering != k) fail(who + ": service deferred its answer, but the Rpc sent " + what + " before respond() was called for it");
+        else if (in.kind == K_DEFER_OK ? (rs.is_error || rs.result != in.result) : (!rs.is_error || rs.code != in.errcode))
+          fail(who + ": respond() was called with " + (in.kind == K_DEFER_OK ? "result " + dumpJ(in.result) : "errcode " + std::to_string(in.errcode)) + ", the Rpc sent " + what);
+        break;
+      default:   // deferred and never answered: only "not a result" is required
+        if (!rs.is_error) fail(who + ": nobody ever answered this request, but the Rpc sent " + what);
+        break;
+    }
+  }
+  bool onService(bool defer, int id, const Json &params, int &errcode, Json &result) {
+    if (inc_stack.empty()) { fail(std::string("service ") + (defer ? "svc_defer" : "svc_sync") + " invoked although no peer request was being delivered"); return true; }
+    Incoming &in = incs[inc_stack.back()];
+    ++in.invoked;
+    bool is_defer_kind = in.kind >= K_DEFER_OK;
+    if (is_defer_kind != defer || in.kind == K_NOSUCH) fail("peer request for " + in.method + " reached the other service");
+    if (id != (in.has_id ? in.id : 0)) fail("service for " + in.method + " invoked with id " + std::to_string(id) + ", the peer sent " + (in.has_id ? std::to_string(in.id) : std::string("a notification")));
+    if (params != in.params) fail("service for " + in.method + " invoked with params " + dumpJ(params) + ", the peer sent " + dumpJ(in.params));
+    if (defer) return false;
+    errcode = in.kind == K_SYNC_ERR ? in.errcode : 0;
+    result = in.result;   // (documented: only meaningful when errcode == 0)
+    return true;
+  }
+  int pickPeerId(int idsel) {
+    int id;
+    int pend = 0, comp = 0;
+    for (auto &q : reqs) if (q.issued && q.wire_id != 0) { if (q.done.empty()) { if (!pend) pend = q.wire_id; } else if (!comp) comp = q.wire_id; }
+    switch (idsel % 7) {
+      case 0: id = max_wire_id + 1; break;                 // the number the Rpc is going to use next
+      case 1: id = max_wire_id + 2; break;
+      case 2: id = pend ? pend : max_wire_id + 1; break;   // a pending own request
+      case 3: id = comp ? comp : max_wire_id + 1; break;   // a completed own request
+      case 4: id = 1000 + (int)incs.size(); break;
+      case 5: id = INT_MAX - (int)incs.size(); break;
+      default: id = -1 - (int)incs.size(); break;
+    }
+    auto used = [this](int v) { if (v == 0) return true; for (auto &in : incs) if (in.has_id && in.id == v) return true; return false; };
+    if (used(id)) { id = max_wire_id + 1; while (used(id)) ++id; }   // the peer never reuses one of ITS ids
+    return id;
+  }
+  void peerRequest(bool has_id, int id, int kind, int pay, uint64_t delay) {
+    if (!err.empty() || (int)incs.size() >= kMaxIncoming) return;
+    for (auto &in : incs) if (has_id && in.has_id && in.id == id) return;
+    incs.emplace_back();
+    int k = (int)incs.size() - 1;
+    Incoming &in = incs[k];
+    in.has_id = has_id; in.id = has_id ? id : 0; in.kind = kind; in.pay = pay; in.t_in = clk.now; in.delay = delay;
+    in.method = kind == K_NOSUCH ? "nosuch" : kind <= K_SYNC_ERR ? "svc_sync" : "svc_defer";
+    in.params = paramsFor(pay, k);
+    ++serial;
+    in.errcode = -(100 + serial); in.result = Json{{"s", serial}, {"v", paramsFor(serial % 6, serial)}};
+    Json js = {{"jsonrpc", "2.0"}, {"method", in.method}};
+    if (has_id) js["id"] = in.id;
+    if (!in.params.is_null()) js["params"] = in.params;
+    if (has_id) for (auto &q : reqs) if (q.issued && q.wire_id == in.id) st_inc_collide = true;
+    if (!has_id) st_inc_notify = true;
+    else if (kind == K_NOSUCH) st_inc_nosuch = true; else if (kind <= K_SYNC_ERR) st_inc_sync = true; else if (kind == K_DEFER_NEVER) st_inc_never = true;
+    std::string frame = frameText(proto_kind, js.dump());
+    int d = (int)delivs.size();
+    delivs.emplace_back(); delivs[d].incoming = k;
+    ctx_stack.push_back(d); inc_stack.push_back(k);
+    ssize_t ret = callExact(*proto, frame.data(), frame.size());
+    inc_stack.pop_back(); ctx_stack.pop_back();
+    if (ret != (ssize_t)frame.size()) { fail("onRecvData returned " + std::to_string(ret) + " for a well-formed request frame of " + std::to_string(frame.size()) + " bytes"); return; }
+    Incoming &rec = incs[k];
+    std::string who = std::string(has_id ? "peer request id " + std::to_string(rec.id) : std::string("peer notification")) + " (" + rec.method + ")";
+    if (kind != K_NOSUCH && rec.invoked != 1) fail(who + ": the registered service was invoked " + std::to_string(rec.invoked) + " times");
+    if (!has_id) return;   // (a response frame with id != 0 cannot be attributed to it; id 0 is judged in onSendResponse)
+    if (kind <= K_SYNC_ERR && rec.resps.size() != 1) fail(who + ": " + std::to_string(rec.resps.size()) + " responses on the wire when onRecvData returned, expected exactly one");
+    if (kind >= K_DEFER_OK && !rec.resps.empty()) fail(who + ": the service deferred its answer, but a response is already on the wire");
+  }
+  // answers of the deferring service that have become due (called from the top level of a loop pass)
+  void flushAnswers() {
+    for (size_t k = 0; k < incs.size() && err.empty(); ++k) {
+      Incoming &in = incs[k];
+      if (!in.has_id || (in.kind != K_DEFER_OK && in.kind != K_DEFER_ERR) || in.answered || clk.now < in.t_in + in.delay) continue;
+      in.answered = true; in.t_answer = clk.now;
+      in.in_time = clk.now - in.t_in <= (uint64_t)(timeout_s - 1) * 1000;   // the respond timeout cannot have passed yet
+      (in.in_time ? st_inc_defer_answered : st_inc_defer_late) = true;
+      answering = (int)k;
+      if (in.kind == K_DEFER_OK) { if (in.pay % 2) rpc->respond(in.id, 0, in.result); else rpc->respond(in.id, in.result); }
+      else { if (in.pay % 2) rpc->respond(in.id, in.errcode, Json("must not be sent")); else rpc->respond(in.id, in.errcode); }
+      answering = -1;
+      if (in.in_time && in.resps.size() != 1)
+        fail("peer request id " + std::to_string(in.id) + ": respond() called " + std::to_string(clk.now - in.t_in) + " ms after the request (timeout " + std::to_string(timeout_s) +
+             " s) put " + std::to_string(in.resps.size()) + " responses on the wire");
+    }
+  }
+  bool answersOutstanding() const { for (auto &in : incs) if (in.has_id && (in.kind == K_DEFER_OK || in.kind == K_DEFER_ERR) && !in.answered) return true; return false; }
   int pickOther(int sel, int self) const {
     std::vector<int> c; for (size_t i = 0; i < reqs.size(); ++i) if ((int)i != self && reqs[i].issued && reqs[i].wire_id != 0) c.push_back((int)i);
     return c.empty() ? -1 : c[(size_t)sel % c.size()];
@@ -275,7 +439,7 @@ std::string run(const Scenario &s, CaseInfo &info) {
       case THEN: if (!w.chains.empty() && (int)w.chains.back().size() < kMaxChain && !tops.empty())
                    w.chains.back().push_back(ThenSpec{(int)op.in(0, 0, 1), (int)op.in(1, 0, NSYNC - 1), (int)op.in(2, 0, 63)});
                  break;
-      case NOTIFY: case DELIVER: case UNKNOWN: case ADVANCE: tops.push_back(TopOp{op.code, &op}); break;
+      case NOTIFY: case DELIVER: case UNKNOWN: case ADVANCE: case PEERREQ: case PEERNOTIFY: tops.push_back(TopOp{op.code, &op}); break;
       default: break;
     }
   }
@@ -287,6 +451,8 @@ std::string run(const Scenario &s, CaseInfo &info) {
   w.rpc.reset(new tbox::jsonrpc::Rpc(w.loop.get()));
   w.rpc->initialize(w.proto.get(), w.timeout_s);
   w.proto->setSendCallback([&w](const void *p, size_t n) { w.onSend(p, n); });
+  w.rpc->addService("svc_sync", [&w](int id, const Json &params, int &ec, Json &res) { return w.onService(false, id, params, ec, res); });
+  w.rpc->addService("svc_defer", [&w](int id, const Json &params, int &ec, Json &res) { return w.onService(true, id, params, ec, res); });
 
   // ---- micro steps: one op per loop pass; the clock moves in steps <= 1000 ms, each followed by two idle passes
   struct Step { int kind; int idx; uint64_t ms; };   // 0 = op, 1 = advance, 2 = idle
@@ -314,13 +480,17 @@ std::string run(const Scenario &s, CaseInfo &info) {
       case DELIVER: {
         std::vector<int> c; for (size_t i = 0; i < w.reqs.size(); ++i) if (w.reqs[i].issued && w.reqs[i].wire_id != 0) c.push_back((int)i);
         if (c.empty()) break;
-        w.deliverFor(c[(size_t)op.in(0, 0, 1 << 20) % c.size()], (int)op.in(1, 0, 4), true);
+        w.deliverFor(op.arg(0) == -1 ? c.back() : c[(size_t)op.in(0, 0, 1 << 20) % c.size()], (int)op.in(1, 0, 4), true);   // -1: the most recent request
         break; }
+      case PEERREQ: w.peerRequest(true, w.pickPeerId((int)op.in(0, 0, 6)), (int)op.in(1, 0, NKIND - 1), (int)op.in(2, 0, 5), (uint64_t)op.in(3, 0, 7000)); break;
+      case PEERNOTIFY: { static const int kinds[] = {K_NOSUCH, K_SYNC_OK, K_DEFER_NEVER}; w.peerRequest(false, 0, kinds[op.in(0, 0, 2)], (int)op.in(1, 0, 5), 0); break; }
       case UNKNOWN: w.deliverUnknown((int)op.in(0, 0, 7), (int)op.in(1, 0, 1)); break;
       default: break;
     }
   };
   vloop::drive(w.loop.get(), [&](int) -> bool {
+    if (!w.err.empty()) return false;
+    w.flushAnswers();
     if (!w.err.empty()) return false;
     if (pc < steps.size()) {
       const Step &st = steps[pc++];
@@ -328,7 +498,7 @@ std::string run(const Scenario &s, CaseInfo &info) {
       return true;
     }
     if (idle_left > 0) { --idle_left; return true; }
-    if (anyPending() && drained < 80000) { w.prev_now = w.clk.now; w.clk.now += 500; drained += 500; idle_left = 2; return true; }   // final drain
+    if ((anyPending() || w.answersOutstanding()) && drained < 80000) { w.prev_now = w.clk.now; w.clk.now += 500; drained += 500; idle_left = 2; return true; }   // final drain
     return false;
   });
   std::string err = w.err;
@@ -337,6 +507,16 @@ std::string run(const Scenario &s, CaseInfo &info) {
       const Req &q = w.reqs[k];
       if (q.issued && q.done.size() != 1) { err = w.nameOf((int)k) + ": completion callback ran " + std::to_string(q.done.size()) + " times by the final drain (clock " + std::to_string(w.clk.now - q.t_issue) + " ms past the request, timeout " + std::to_string(w.timeout_s) + " s)"; break; }
     }
+  // shape: a deferred peer request that is not answered before its respond timeout, carrying the id of an own request
+  // that was issued >= 1 s later (but before that respond timeout can have passed) and is still pending when it has passed
+  bool shape_collision_expiry = false;
+  for (auto &in : w.incs) {
+    if (!in.has_id || in.kind < K_DEFER_OK) continue;
+    uint64_t expiry = in.t_in + (uint64_t)w.timeout_s * 1000;
+    if (in.answered && in.t_answer < expiry) continue;
+    for (auto &q : w.reqs)
+      if (q.issued && q.wire_id == in.id && q.t_issue >= in.t_in + 1000 && q.t_issue < expiry && !q.done.empty() && q.done[0].t >= expiry) shape_collision_expiry = true;
+  }
   // ---- tear down as the examples do
   w.rpc->cleanup();
   vloop::passes(w.loop.get(), 2);
@@ -362,6 +542,17 @@ std::string run(const Scenario &s, CaseInfo &info) {
   info.cls_if(w.st_other_in_cb, "other_request_completed_inside_a_callback");
   info.cls_if(w.st_batch, "batch_response");
   info.cls_if(w.notifies > 0, "notify");
+  info.cls_if(!w.incs.empty(), "peer_sends_requests");
+  info.cls_if(w.st_inc_nosuch, "peer_request_unregistered_method");
+  info.cls_if(w.st_inc_sync, "peer_request_answered_synchronously");
+  info.cls_if(w.st_inc_defer_answered, "peer_request_deferred_answered_in_time");
+  info.cls_if(w.st_inc_defer_late, "peer_request_deferred_answered_after_respond_timeout");
+  info.cls_if(w.st_inc_never, "peer_request_deferred_never_answered");
+  info.cls_if(w.st_inc_notify, "peer_notification");
+  info.cls_if(w.st_notif_nosuch_answered, "peer_notification_unregistered_method_answered_with_id0(left_free)");
+  info.cls_if(w.st_inc_in_send, "peer_request_sent_from_inside_request()");
+  info.cls_if(w.st_inc_collide, "peer_request_id_equals_an_issued_own_id");
+  info.cls_if(shape_collision_expiry, "peer_deferred_request_expires_while_later_own_request_with_same_id_is_pending");
   info.cls_if(w.reqs.size() >= 5, "requests>=5");
   info.nontrivial = w.st_late && w.st_nested;
   return "";
@@ -372,12 +563,26 @@ Scenario expand(uint64_t seed) {
   Rng r(seed);
   Scenario sc; auto &v = sc.ops;
   auto mk = [&v](int code, std::vector<int64_t> a) { Op o; o.code = code; o.a = std::move(a); v.push_back(std::move(o)); };
-  int timeout = (int)r.pick({{3, 1}, {3, 2}, {2, 3}, {1, 5}});
+  bool collide = r.chance(1, 3);   // a third of the cases contain the id-collision pattern below (needs timeout >= 2 s to be observable)
+  int timeout = collide ? (int)r.pick({{4, 2}, {3, 3}, {1, 5}}) : (int)r.pick({{3, 1}, {3, 2}, {2, 3}, {1, 5}});
   mk(CFG, {r.rng(0, 2), timeout});
   int n = (int)r.pick({{1, 2}, {3, 6}, {3, 12}, {2, 24}});
-  auto sync = [&]() { return r.pick({{8, SY_NONE}, {2, SY_RESULT}, {1, SY_ERROR}, {1, SY_TWICE}, {2, SY_OTHER}, {1, SY_UNKNOWN}, {2, SY_PARENT}}); };
+  auto sync = [&]() { return r.pick({{16, SY_NONE}, {4, SY_RESULT}, {2, SY_ERROR}, {2, SY_TWICE}, {4, SY_OTHER}, {2, SY_UNKNOWN}, {4, SY_PARENT}, {1, SY_PEERREQ}}); };
+  int collide_at = collide ? (int)r.rng(0, n - 1) : -1;
   for (int i = 0; i < n; ++i) {
-    switch (r.pick({{6, REQUEST}, {1, NOTIFY}, {5, DELIVER}, {1, UNKNOWN}, {5, ADVANCE}})) {
+    if (i == collide_at) {
+      // the peer sends a request that is deferred (never / too late answered) under the id the Rpc will use next; the own request
+      // follows 1 .. timeout-0.1 s later and is still unanswered when the peer request's respond timeout passes; then its response arrives
+      int64_t kind = r.pick({{3, K_DEFER_NEVER}, {1, K_DEFER_OK}, {1, K_DEFER_ERR}});
+      mk(PEERREQ, {r.pick({{5, 0}, {1, 2}, {1, 1}}), kind, r.rng(0, 5), timeout * 1000 + r.rng(0, 1500)});
+      int64_t a = r.rng(10, timeout * 10 - 1) * 100;
+      mk(ADVANCE, {a});
+      mk(REQUEST, {SY_NONE, r.rng(0, 63), r.rng(0, 5)});
+      mk(ADVANCE, {timeout * 1000 - a + r.pick({{2, 0}, {1, 100}, {1, 600}})});
+      if (r.chance(3, 4)) mk(DELIVER, {-1, r.pick({{3, 0}, {1, 1}}), 0});
+      continue;
+    }
+    switch (r.pick({{12, REQUEST}, {2, NOTIFY}, {10, DELIVER}, {2, UNKNOWN}, {10, ADVANCE}, {5, PEERREQ}, {1, PEERNOTIFY}})) {
       case REQUEST: {
         mk(REQUEST, {sync(), r.rng(0, 63), r.rng(0, 5)});
         int nt = (int)r.pick({{5, 0}, {3, 1}, {2, 2}, {1, 4}});
@@ -386,6 +591,9 @@ Scenario expand(uint64_t seed) {
       case NOTIFY: mk(NOTIFY, {r.rng(0, 5)}); break;
       case DELIVER: mk(DELIVER, {r.rng(0, 1000), r.pick({{5, 0}, {2, 1}, {1, 2}, {1, 3}, {1, 4}}), 0}); break;
       case UNKNOWN: mk(UNKNOWN, {r.rng(0, 7), r.rng(0, 1)}); break;
+      case PEERREQ: mk(PEERREQ, {r.pick({{4, 0}, {2, 1}, {3, 2}, {2, 3}, {1, 4}, {1, 5}, {1, 6}}), r.rng(0, NKIND - 1),
+                                 r.rng(0, 5), r.pick({{2, 0}, {3, r.rng(0, (timeout - 1) * 1000)}, {1, timeout * 1000 + r.rng(-1000, 1000)}, {1, r.rng(0, 7000)}})}); break;
+      case PEERNOTIFY: mk(PEERNOTIFY, {r.rng(0, 2), r.rng(0, 5)}); break;
       default: mk(ADVANCE, {r.pick({{2, r.rng(1, 999)}, {2, 1000}, {2, timeout * 1000 - 1000 + r.rng(-1, 1)}, {2, timeout * 1000 + r.rng(-1, 1)}, {1, r.rng(1, 7000)}})}); break;
     }
   }
@@ -395,8 +603,8 @@ Scenario expand(uint64_t seed) {
 
 SubDef def = [] {
   SubDef d; d.name = "rpc_once";
-  d.op_names = {"cfg", "request", "then", "notify", "deliver", "unknown", "advance"};
-  d.op_arity = {2, 3, 3, 1, 3, 2, 1};
+  d.op_names = {"cfg", "request", "then", "notify", "deliver", "unknown", "advance", "peerreq", "peernotify"};
+  d.op_arity = {2, 3, 3, 1, 3, 2, 1, 4, 2};
   d.nt_rule = "a response was delivered for a request that had already completed with the timeout error, and a completion callback issued a further request or notification";
   d.run = run;
 #ifndef VERIF_ENGINE_FUZZ
